@@ -13,6 +13,7 @@ from ..gen_values import (DIALECTS, gen_module, gen_config, make_encoder, gen_va
 from ..normalise import snapshot
 
 CHECK = "C13"
+OWN_HISTORY = True   # after the pristine copy was forked
 RULE = (
     "random modules (C01 generator) plus modules biased towards the PDS3 "
     "in-place conversion trigger (top level with groups and no object, the "
@@ -440,6 +441,10 @@ def shard(i, n, tier, seed, rec, hb):
     pvl = common.import_pvl()
     # forked before this worker has written anything
     pristine = common.Pristine(lambda req: first_dump(pvl, req[0], req[1]))
+    # (the pristine copy exists now; this worker itself may have a past)
+    from .. import prelude
+    rec.count("workers_with_a_hostile_history"
+              if prelude.hostile_history(pvl, i) else "workers_starting_fresh")
     per = 4000 if tier == "quick" else 800000
     try:
         for dialect in common.rotated(DIALECTS, i):
